@@ -545,7 +545,7 @@ def check_C09(ctx):
 
 
 def check_C10(ctx):
-    res = run_family(ctx, "valuelit", "ValueLit", ["ValueLit_gen.cfg"], "ValueLitTrace", shard=6000)
+    res = run_family(ctx, "valuelit", "ValueLit", ["ValueLit_gen.cfg"], "ValueLitTrace", rand_n=400 if ctx.quick() else 6000, shard=6000, exec_timeout=5400)
     fails = vlib.collect_failures(res["trace"], res["bad"], "valuelit", only_prefix="C10")
     tr = res["trace"]
     cov = {
@@ -557,7 +557,8 @@ def check_C10(ctx):
                 "nil and empty containers, a type of another package) x every edge class of 16 leaf types (extreme integers, printable / non-printable / negative runes, float32 / float64 "
                 "zero, -0, smallest subnormal, max, 0.1, 1/3, 1e300, strings with quotes, control characters, backquotes, non-UTF-8 bytes, long text, named versions). Each value is "
                 "built with reflect, rendered with snippet.Value three times, type-checked on its own by go/types with exactly the registered imports (alone, and against the value's "
-                "type), and all well-typed literals are compiled into one program that prints a canonical form compared with the original's. Non-trivial = composite shapes.",
+                "type), and all well-typed literals are compiled into one program that prints a canonical form compared with the original's. Plus seeded random nested values "
+                "(depth 3 over slices, arrays, maps with seven key types, pointers, a struct with container fields). Non-trivial = composite shapes.",
         "exhaustive": True,
         "compiled_and_evaluated": sum(1 for r in tr if r["obs"]["ran"]),
         "samples": [{"case": r["case"], "text": r["obs"]["text"][:200], "type": r["obs"]["go_type"]} for r in tr[:: max(1, len(tr) // 4)][:4]],
